@@ -90,6 +90,11 @@ def LMPR_complexity(dist, rvs=None, rv_mode=None):
         The LMPR complexity.
     """
     d = dist.copy()
+    if d.is_joint() and rvs is not None:
+        # The complexity of `rvs` is that of their marginal: the normalization
+        # below must not count the outcomes of the other variables.
+        d = d.marginal(rvs, rv_mode=rv_mode)
+        rvs, rv_mode = None, None
     d.make_dense()
     D = disequilibrium(d, rvs, rv_mode)
     H = entropy(d, rvs, rv_mode) / np.log2(len(d.outcomes))
